@@ -164,6 +164,104 @@ def accumulateAllCols (chunks : List (List (List Rat))) : Option Acc :=
 def accumulateAll (dim : Nat) (xs : List Tensor) : Option Acc :=
   xs.foldl (fun st x => some (accumulate st x dim)) none
 
+/-! ## The module as a state machine (`accumulate` / `store(delete_stats, bessel)` in any order) -/
+
+/-- What a `MeanVarianceNormalization` object carries between calls: the three accumulation
+buffers (`none` = the buffers are `None`) and the stored statistics `(mean, var)` with
+`std = sqrt(var)` (`none` = `mean`/`std` are `None`). -/
+structure MvnState where
+  acc : Option Acc
+  stats : Option (List Rat × List Rat)
+  deriving Repr, BEq, DecidableEq
+
+inductive MvnOp where
+  /-- `accumulate(x)`, `cols = columns x dim` -/
+  | accumulate (cols : List (List Rat))
+  /-- `store(delete_stats, bessel)` -/
+  | store (deleteStats bessel : Bool)
+  deriving Repr
+
+/-- One method call.  The flag says whether the call raised `RuntimeError`; `store` raises before it
+touches anything, so the state is then unchanged.  A successful `store` overwrites whatever
+statistics were there and drops the buffers iff `delete_stats`. -/
+def mvnStep (s : MvnState) : MvnOp → MvnState × Bool
+  | .accumulate cols => ({ s with acc := some (accumulateCols s.acc cols) }, false)
+  | .store del bessel =>
+    match store s.acc bessel with
+    | none => (s, true)
+    | some st => ({ acc := if del then none else s.acc, stats := some st }, false)
+
+/-- Any sequence of calls (a caller that catches the `RuntimeError`s and carries on). -/
+def mvnRun (s : MvnState) (ops : List MvnOp) : MvnState :=
+  ops.foldl (fun s op => (mvnStep s op).1) s
+
+/-! ## `compute-mvn-stats-for-torch-feat-data-dir`: one accumulator per group -/
+
+inductive CliResult where
+  /-- an error message was printed, the command returned 1 and wrote nothing -/
+  | exit1
+  /-- `store` raised `RuntimeError` (a group with too few frames) -/
+  | raised
+  /-- the dictionary that is saved, in the order of the group table -/
+  | wrote (stats : List (Option String × (List Rat × List Rat)))
+  deriving Repr, BEq, DecidableEq
+
+/-- `id2gid[id_]`: without `--id2gid` a `defaultdict` that maps every id to the group `None`;
+with it a `dict` (outer `none` = `KeyError`). -/
+def cliLookup (m : Option (List (String × String))) (id : String) : Option (Option String) :=
+  match m with
+  | none => some none
+  | some tbl => (tbl.lookup id).map some
+
+/-- `gid2mvn`: the group ids in order of first appearance, every accumulator still `None`. -/
+def cliTable (m : Option (List (String × String))) : List (Option String × Option Acc) :=
+  match m with
+  | none => [(none, none)]
+  | some tbl => (tbl.map (fun p => some p.2)).eraseDups.map (fun g => (g, none))
+
+/-- `mvn = gid2mvn[gid]; mvn.accumulate(x)` (the module is created on first use). -/
+def cliPut (tbl : List (Option String × Option Acc)) (gid : Option String) (cols : List (List Rat)) :
+    List (Option String × Option Acc) :=
+  tbl.map (fun p => if p.1 = gid then (p.1, some (accumulateCols p.2 cols)) else p)
+
+/-- The loop over the files (sorted by id); `none` = an id the map does not list (exit status 1). -/
+def cliLoop (m : Option (List (String × String))) :
+    List (Option String × Option Acc) → List (String × List (List Rat)) →
+    Option (List (Option String × Option Acc))
+  | tbl, [] => some tbl
+  | tbl, (id, cols) :: rest =>
+    match cliLookup m id with
+    | none => none
+    | some gid => cliLoop m (cliPut tbl gid cols) rest
+
+/-- The loop over the groups: a group without files is skipped (the group `None`, i.e. no
+`--id2gid` and no feature file: exit status 1), otherwise `store(bessel=...)`. -/
+def cliFinish (bessel : Bool) : List (Option String × Option Acc) → CliResult
+  | [] => .wrote []
+  | (gid, none) :: rest => if gid = none then .exit1 else cliFinish bessel rest
+  | (gid, some a) :: rest =>
+    match store (some a) bessel with
+    | none => .raised
+    | some st =>
+      match cliFinish bessel rest with
+      | .wrote l => .wrote ((gid, st) :: l)
+      | r => r
+
+/-- The parser rejects a map that lists an id twice (exit status 1). -/
+def cliMapOk : Option (List (String × String)) → Bool
+  | none => true
+  | some tbl => decide (tbl.map (·.1)).Nodup
+
+/-- The whole command on the parsed id map (`none` = no `--id2gid`) and the files in the
+order of the directory dataset (sorted ids), each as its coefficient columns. -/
+def cliStats (m : Option (List (String × String))) (files : List (String × List (List Rat)))
+    (bessel : Bool) : CliResult :=
+  if cliMapOk m then
+    match cliLoop m (cliTable m) files with
+    | none => .exit1
+    | some t => cliFinish bessel t
+  else .exit1
+
 /-! ## Feature deltas -/
 
 /-- `Σ_{k=1..w} k²`. -/
